@@ -1,6 +1,6 @@
 /-
   C05 bounded progress, part 4: what the messages (everything but the end-block) can do to the settlement work, and
-  the queue invariant `QInv` of every reachable state.
+  the queue invariant `SbQInv` of every reachable state.
 -/
 import SgeProofs.Lemmas.SettleBoundOb
 namespace Sge.Core
